@@ -508,7 +508,8 @@ Inv_C03_FirstFailureNamed ==
           /\ ~AllOK(PR, j)
           /\ \A i \in 1..(j - 1) : AllOK(PR, i)
           /\ \A k \in Range(PR.writes) : k \in ManagedKeys(PR) => PhaseOf(PR, k) <= j
-          /\ W.args.failedPhase = PR.snap.cr.phases[j].name
+          \* the message names the first failing phase, and no other phase (word match, independent of the wording)
+          /\ Range(W.args.failedPhase) = { PR.snap.cr.phases[j].name }
 
 ---------------------------------------------------------------------------
 (* C04 teardown in reverse order, finalizer held *)
